@@ -358,6 +358,15 @@ Theorem C12_extract_po_ok :
 Proof. exact extract_po_ok. Qed.
 Print Assumptions C12_extract_po_ok.
 
+Theorem C12_roundtrip_unprivileged_ordered :
+  forall pre umask preserve repro T,
+    N.land umask 192 = 0 -> (preserve = false -> umask <= 511) ->
+    is_dir T = true -> wf_treeb T = true -> modes_okb T = true -> benign_tree pre T = true ->
+    exists f', extract_po false pre umask preserve (tar_entries pre repro T) = Ok f' /\
+      forall p, fs_lookup f' p = expected umask preserve T p.
+Proof. exact roundtrip_unprivileged_ordered. Qed.
+Print Assumptions C12_roundtrip_unprivileged_ordered.
+
 Theorem C12_restore_order_ok :
   forall priv pre preserve es f0,
     (forall p m, fs_lookup f0 p = Some (NDir m) -> has_x m = true) ->
